@@ -17,8 +17,32 @@ class Failure(Exception):
         return d
 
 
+def sprinkle_gaps(seqs, mode, start, seed):
+    """gap characters written into the records of an input file (they are not residues): in every record ('all'), only in
+    the records from index `start` on ('late'), or only behind the last residue ('tail')"""
+    import random
+    rnd = random.Random(seed)
+    out = []
+    for i, s in enumerate(seqs):
+        if not s or (mode == "late" and i < start):
+            out.append(s)
+            continue
+        if mode == "tail":
+            out.append(s + rnd.choice("-.*") * rnd.choice([0, 1, 2, 5]))
+            continue
+        r = []
+        for c in s:
+            if rnd.random() < 0.1:
+                r.append(rnd.choice("-.") * rnd.randint(1, 3))
+            r.append(c)
+        out.append("".join(r))
+    return out
+
+
 def fasta_bytes(names, seqs, width=0, layout=None):
-    """layout: dict(width, eol, final_eol, lead_blank) - how the same records are laid out in the file"""
+    """layout: dict(width, eol, final_eol, lead_blank, ingaps, ingap_from, ingap_seed) - how the same records are laid out in the file"""
+    if layout and layout.get("ingaps"):
+        seqs = sprinkle_gaps(seqs, layout["ingaps"], min(layout.get("ingap_from", 0), max(0, len(seqs) - 1)), layout.get("ingap_seed", 0))
     if layout:
         eol = layout.get("eol", "\n")
         text = formats.write_fasta(names, seqs, width=layout.get("width", width), eol=eol, lead_blank=layout.get("lead_blank", 0))
@@ -172,7 +196,9 @@ def auto_layout(names, seqs):
     feeds FASTA files exercises all layouts instead of one."""
     import zlib
     h = zlib.crc32(("\x00".join(names) + "\x01" + "\x00".join(seqs)).encode("latin-1", "replace"))
-    return {"width": [0, 0, 60, 80, 7, 61][h % 6], "eol": "\r\n" if (h // 6) % 5 == 0 else "\n", "final_eol": (h // 30) % 3 != 0}
+    return {"width": [0, 0, 60, 80, 7, 61][h % 6], "eol": "\r\n" if (h // 6) % 5 == 0 else "\n", "final_eol": (h // 30) % 3 != 0,
+            # gap characters already in the file (C04: they never matter): none / in the later records only / everywhere / tails
+            "ingaps": [None, None, None, None, "late", "late", "all", "tail"][(h // 90) % 8], "ingap_from": (h // 720) % 70, "ingap_seed": h % 9973}
 
 
 def align_named(names, seqs, cfg, variant="asan", env=None, hook=None, delays=None, codes=False, width=0, layout=None):
